@@ -277,3 +277,12 @@ proof fn lemma_ren_base(a: &Document, b: &Document, tf: Map<u32, Bookmark>, lb: 
         }
     }
 }
+
+// ----- every forest built through the API satisfies what the walks require -----
+/// a document without bookmarks (Document::new: empty table, empty list, counter 0) satisfies the three invariants; add_bookmark keeps
+/// them for bookmarks made by Bookmark::new (its postconditions); so they hold after every sequence of such calls, and
+/// adjust_zero_pages / renumber_bookmarks keep them too.
+proof fn lemma_empty_forest(d: &Document)
+    requires d.bookmark_table@ == Map::<u32, Bookmark>::empty(), d.bookmarks@.len() == 0
+    ensures forest_wf(d), forest_ordered(d), list_in_table(d.bookmark_table@, d.bookmarks@)
+{ }
